@@ -92,7 +92,7 @@ current = [None]
 
 def mismatch(what, expected, got, ctx):
     # 'case' makes the record self-contained: check_signatures.py --replay
-    mismatches.append({'impl': impl, 'what': what, 'expected': expected,
+    mismatches.append({'impl': impl, 'case_idx': childlib.CASE[0], 'what': what, 'expected': expected,
                        'got': got, 'ctx': ctx, 'mode': MODE,
                        'case': current[0]})
 
@@ -412,7 +412,7 @@ def replay_agg(case):
 
 
 REPLAY = {'c18': replay_c18, 'pairs': replay_pair, 'agg': replay_agg}[MODE]
-for case in job['cases']:
+for childlib.CASE[0], case in enumerate(job['cases']):
     current[0] = case
     REPLAY(case)
 
